@@ -1811,7 +1811,23 @@ def run_all(ctx, prop, hist_oracle_fn, path_oracle_fn, sample_k, n_hist, n_bad, 
 
 
 def run(ctx):
+    # second tie: re-translate the share / power updates, the derived figures and the selection tests of
+    # gnpy/core/info.py from /repo's source and re-match the rest against templates; the equivalence lemmas of
+    # Proofs/SIGen.v are then re-checked by check_props against what the code says now
+    from . import pygen_c01
+    gen_ok, gen_msg = pygen_c01.regenerate()
     ctx.proof = common.check_props(PROP)
+    if not gen_ok:
+        ctx.proof['ok'] = False
+        ctx.proof['log'] = 'harness/pygen_c01.py: ' + gen_msg + '\n' + ctx.proof.get('log', '')
+        ctx.proof['failed_file'] = 'theories/Gen/SIGen.v (translation of /repo source failed)'
+    ctx.assumptions.append(
+        'translator tie: harness/pygen_c01.py (fail-closed Python-ast -> Gallina: add_nli, add_ase, apply_attenuation_lin/db, '
+        'apply_gain_lin/db, signal/ase/nli/snr_lin/snr_nli/gsnr, is_in_band and the two validity tests of the constructor are '
+        'translated into per-channel functions over Q, numpy element-wise arithmetic read as the arithmetic of one channel, '
+        'db2lin abstract; the constructor (argsort + indexing of every array), pch getter/setter, select_channels, __add__, '
+        'demuxed/muxed_spectral_information, the dB views, Transceiver._calc_snr/update_snr and utils.snr_sum are matched '
+        'statement by statement against templates) is trusted')
     ctx.rule = ('(a) random histories (1-20 operations: attenuation/gain in linear and dB form, scalar and per-channel, '
                 'add_ase, add_nli incl. NLI = channel power, demux, split+merge, sum with a second spectrum; 1-30 channels of '
                 'mixed slot width / baud rate / power, -30..+10 dBm) on a real SpectralInformation vs the model after every '
